@@ -419,10 +419,42 @@ class Fn:
         return f"{r}.1", "B"
 
     # ---------------------------------------------------------------- statements
+    def message_ok(self, e):
+        """the message of a raise is evaluated before the exception exists: it may only be built from constants and
+        from conversions that cannot themselves fail or depend on the argument's own code (its class name, a length,
+        an integer variable) — formatting an arbitrary argument object (`{x}`, `% x`, `str(x)`) can raise something else"""
+        if isinstance(e, ast.Constant) and isinstance(e.value, str):
+            return True
+        if isinstance(e, ast.BinOp) and isinstance(e.op, ast.Add):
+            return self.message_ok(e.left) and self.message_ok(e.right)
+        if isinstance(e, ast.JoinedStr):
+            for part in e.values:
+                if isinstance(part, ast.Constant):
+                    continue
+                if not (isinstance(part, ast.FormattedValue) and part.conversion == -1 and part.format_spec is None):
+                    return False
+                v_ = part.value
+                src = ast.unparse(v_)
+                if isinstance(v_, ast.Attribute) and v_.attr == "__name__" and isinstance(v_.value, ast.Attribute) \
+                        and v_.value.attr == "__class__" and isinstance(v_.value.value, ast.Name):
+                    continue
+                if isinstance(v_, ast.Call) and ast.unparse(v_.func) in ("str", "len") and len(v_.args) == 1 and \
+                        (ast.unparse(v_.args[0]).startswith("len(") or self.types.get(ast.unparse(v_.args[0])) in ("N", "I")
+                         or (ast.unparse(v_.func) == "len" and isinstance(v_.args[0], ast.Name))):
+                    continue
+                if isinstance(v_, ast.Name) and self.types.get(src) in ("N", "I"):
+                    continue
+                return False
+            return True
+        return False
+
     def exc_class(self, st):
-        if isinstance(st, ast.Raise) and isinstance(st.exc, ast.Call) and isinstance(st.exc.func, ast.Name):
+        if isinstance(st, ast.Raise) and isinstance(st.exc, ast.Call) and isinstance(st.exc.func, ast.Name) and not st.exc.keywords:
             n = st.exc.func.id
             if n in ("ValueError", "TypeError"):
+                if len(st.exc.args) != 1 or not self.message_ok(st.exc.args[0]):
+                    raise Unsupported("raise whose message is not built from constants, class names, lengths and integers: "
+                                      + ast.unparse(st)[:90])
                 return ".valueError" if n == "ValueError" else ".typeError"
         raise Unsupported("raise " + ast.unparse(st))
 
